@@ -1616,10 +1616,24 @@ func (c *Ctx) genC08() {
 	for i := 0; i < n; i++ {
 		layouts = append(layouts, c.randKeys(choices))
 	}
-	for _, keys := range layouts {
+	for li, keys := range layouts {
 		sc := c.baseServeCase(choices)
 		id := sc.regOrder[0]
 		md := mdEntityX{EntityID: id, Descs: []mdDescX{{mdDesc: mdDesc{ACS: []mdEndpoint{{Binding: saml.HTTPPostBinding, Location: "https://sp.example.com/acs1", Index: 1}}, Keys: keys}}}}
+		// a second role descriptor with its own endpoint and its own (other) key layout, before or after: the key that
+		// counts is the one of the role whose endpoint receives the response
+		if li%4 == 3 {
+			other := mdDescX{mdDesc: mdDesc{ACS: []mdEndpoint{{Binding: saml.HTTPPostBinding, Location: "https://sp.example.com/acs2", Index: 2}}, Keys: layouts[(li*7+1)%len(layouts)]}}
+			if li%8 == 3 {
+				md.Descs = append(md.Descs, other)
+			} else {
+				md.Descs = append([]mdDescX{other}, md.Descs...)
+			}
+			c.count("c08-role-descriptors", "2")
+		} else {
+			c.count("c08-role-descriptors", "1")
+		}
+		keys = md.Descs[0].Keys // (no default endpoint, no ACS named in the request: the first role's first usable endpoint is chosen)
 		sc.reg[id] = regEntryX{kind: "f", md: md}
 		sc.sess = secretSession(c)
 		sc.conf = c.randConf()
